@@ -55,6 +55,10 @@ class Gen:
     def _v_none(self, t, d):
         return None
 
+    def _v_boxed(self, t, d):
+        cls = self.fam.get(t[1])
+        return cls([self._v_date(("date",), d) for _ in range(self.rng.randint(0, 2))])
+
     def _v_stype(self, t, d):
         cls = self.fam.get(t[1])
         if self.fam.defs[t[1]]["flavour"] == "plain":
